@@ -19,7 +19,9 @@ Contents ==
     { SelectSeq(<<Cred("c1", a, "u1"), Cred("c2", b, "u1"), Cred("c3", c, "u2")>>, LAMBDA x : x.rp # "absent") :
         a \in RpChoice, b \in RpChoice, c \in RpChoice \cup Near }
 Lists == { <<>>, <<"c1">>, <<"c2">>, <<"c3">>, <<"x1">>, <<"c1", "c2">>, <<"c2", "c1">>, <<"c1", "c3">>,
-           <<"c3", "x1">>, <<"x1", "c2">>, <<"c1", "c2", "c3">> }
+           <<"c3", "x1">>, <<"x1", "c2">>, <<"c1", "c2", "c3">>,
+           \* ids that are near a held id without being it: a prefix, an extension, one bit off, the empty id
+           <<"c1:pre">>, <<"c1:ext">>, <<"c1:flip">>, <<"id:empty">>, <<"c2:pre", "c3:ext">>, <<"id:empty", "c1">> }
 Cases == [content : Contents, ids : Lists, given : BOOLEAN, rp : {"r1", "r2"} \cup Near]
 
 ToSet(s) == { s[i] : i \in 1..Len(s) }
